@@ -76,9 +76,16 @@ func (i MessageIntegrity) AddTo(msg *Message) error {
 	length := msg.Length
 	// Adjusting m.Length to contain MESSAGE-INTEGRITY TLV.
 	msg.Length += messageIntegritySize + attributeHeaderSize
-	msg.WriteLength()                                // writing length to m.Raw
-	v := newHMAC(i, msg.Raw, msg.Raw[len(msg.Raw):]) // calculating HMAC for adjusted m.Raw
-	msg.Length = length                              // changing m.Length back
+	msg.WriteLength() // writing length to m.Raw
+	// The attribute is placed right after the declared message (Add cuts
+	// Raw there), so only those bytes are covered, not what a decoded
+	// datagram may carry after its declared length.
+	end := messageHeaderSize + int(length)
+	if end > len(msg.Raw) {
+		end = len(msg.Raw)
+	}
+	v := newHMAC(i, msg.Raw[:end], msg.Raw[len(msg.Raw):]) // calculating HMAC for adjusted m.Raw
+	msg.Length = length                                    // changing m.Length back
 
 	// Copy hmac value to temporary variable to protect it from resetting
 	// while processing m.Add call.
